@@ -1,5 +1,5 @@
 From Coq Require Import Extraction ExtrOcamlBasic.
 From PP Require Import B64.B64FilterDefs.
 Extraction "model.ml" Z.of_N Z.to_N Z.of_nat Z.to_nat N.of_nat N.to_nat N.add N.mul Z.opp
-  b64filter b64filter_tool b64filter_child_stdin feed_doc doc_spec
+  b64filter b64filter_tool b64filter_tool_stream b64filter_child_stdin feed_doc doc_spec
   b64f_feeder_strip_cr b64f_collector_strip_cr b64f_back_guarded.
